@@ -47,7 +47,7 @@ tvars == <<l, m, glog, parked, router, info, now, log, clean>>
 
 E == Trace[l]
 
-M0 == [st |-> "idle", due |-> 0, up |-> FALSE, stale |-> 0, race |-> FALSE, held |-> FALSE, fail |-> FALSE, can |-> FALSE,
+M0 == [st |-> "idle", due |-> 0, up |-> FALSE, stale |-> 0, race |-> FALSE, held |-> FALSE, fail |-> FALSE, can |-> FALSE, must |-> FALSE,
        conn |-> "no", lastq |-> "", retired |-> {}, stable |-> FALSE, sawopen |-> FALSE, lost |-> FALSE, since |-> 0, carry |-> FALSE]
 
 TInit == /\ TLCSet(1, 0) /\ l = 1 /\ m = [p \in Peers |-> M0] /\ glog = <<>> /\ parked = FALSE /\ router = ""
@@ -73,13 +73,20 @@ TAct ==
                \* once the loop runs again it receives the error of an open that failed while it was parked: the entry goes
                LET x == [m[p] EXCEPT !.sawopen = FALSE, !.st = IF E.a = "unpark" /\ @ = "failing" THEN "idle" ELSE @] IN
                IF p # E.p THEN x
-               \* carry: announced while the entry had no adopted stream yet; a repaired node may replay such an announcement when the
-               \* open fails (one more open without a fresh announcement is then justified), the node as found drops it
-               ELSE CASE E.a = "conn"     -> [x EXCEPT !.conn = "yes", !.can = @ \/ E.made,   \* made: a NEW connection came up (identify runs)
-                                                       !.lost = @ \/ (E.made /\ x.st = "failing"),
-                                                       !.carry = @ \/ (E.made /\ x.st \in {"inflight", "wait", "ready", "failing"})]
-                      [] E.a = "renotify" -> [x EXCEPT !.can = TRUE, !.lost = @ \/ x.st = "failing",
-                                                       !.carry = @ \/ x.st \in {"inflight", "wait", "ready", "failing"}]
+               \* an announcement (made: a NEW connection came up, identify runs; renotify: identify speaks again) stays pending until the
+               \* loop's next handlePendingPeers turn:
+               \*   can    an announcement may still be pending: a NewStream for a peer without entry is justified;
+               \*   must   it was made when the peer had no (healthy) entry: unless the connection goes, a NewStream MUST follow;
+               \*   lost   ... while the error of a failed open had not reached the parked loop (as-found defect, cond "error-pending");
+               \*   carry  it was made while the peer had an entry without adopted stream: a repaired node may replay it when that open
+               \*          fails (one later NewStream without fresh announcement is justified); the node as found drops it
+               ELSE CASE E.a = "conn" /\ E.made ->
+                             [x EXCEPT !.conn = "yes", !.can = TRUE, !.must = @ \/ x.st \in {"idle", "failing"}, !.lost = @ \/ x.st = "failing",
+                                       !.carry = @ \/ x.st \in {"inflight", "wait", "ready", "failing"}]
+                      [] E.a = "conn" -> [x EXCEPT !.conn = "yes"]
+                      [] E.a = "renotify" ->
+                             [x EXCEPT !.can = TRUE, !.must = @ \/ x.st \in {"idle", "failing"}, !.lost = @ \/ x.st = "failing",
+                                       !.carry = @ \/ x.st \in {"inflight", "wait", "ready", "failing"}]
                       [] E.a = "down"     -> [x EXCEPT !.conn = IF E.by = "n" THEN "no" ELSE "maybe"]
                       [] E.a = "hold"     -> [x EXCEPT !.held = TRUE]
                       [] E.a = "release"  -> [x EXCEPT !.held = FALSE]
@@ -133,7 +140,7 @@ TEv ==
                   al   == AllowedM(glog, p, t, MaxAtt)
                   res  == Grant(E.after.d)
                   early == x.st = "ready"          \* the stream was opened but the loop has not adopted it yet
-                  x1 == [x EXCEPT !.up = FALSE, !.stable = FALSE, !.carry = FALSE,
+                  x1 == [x EXCEPT !.up = FALSE, !.stable = FALSE,
                                   !.stale = IF early THEN @ + 1 ELSE @,
                                   !.race = @ \/ early,
                                   !.retired = IF x.lastq # "" THEN @ \cup {x.lastq} ELSE @]
@@ -159,6 +166,7 @@ TSnap ==
        /\ m' = [p \in Peers |->
                   [m[p] EXCEPT !.conn = IF E.conn[p] > 0 THEN "yes" ELSE "no",
                                !.can = IF settled THEN FALSE ELSE @,
+                               !.must = IF settled THEN FALSE ELSE @,
                                !.lost = IF settled THEN FALSE ELSE @,
                                !.lastq = IF settled THEN E.q[p] ELSE @,
                                !.stable = IF settled THEN TRUE ELSE @,
@@ -179,7 +187,7 @@ TSnap ==
                  /\ CASE x.st = "idle" ->
                            /\ E.q[p] # "" => Report("P_X02e_Gone", "entry-left", p, Cond(p), E.q[p])
                            /\ E.alive[p] # 0 => Report("P_X02e_Gone", "stream-left", p, Cond(p), E.alive[p])
-                           /\ (x.can /\ E.conn[p] > 0 /\ ~x.sawopen) =>
+                           /\ (x.must /\ E.conn[p] > 0 /\ ~x.sawopen) =>
                                  Report("P_X02g_Served", "announced-not-opened", p, IF x.lost THEN "error-pending" ELSE Cond(p), "")
                       [] x.st = "live" ->
                            /\ E.q[p] = "" => Report("P_X02f_Consistent", "no-entry", p, Cond(p), "")
